@@ -187,8 +187,8 @@ Ltac finish_frame Hh :=
   (eapply linv_frame;
    [ eassumption | eassumption | cbn; reflexivity
    | unfold pc_ok; cbn in *; try assumption; try reflexivity
-   | unfold holds in *; own_holds Hh
-   | unfold holds in *; own_change Hh ]).
+   | own_holds Hh
+   | own_change Hh ]).
 
 Lemma upd_same : forall A (l : list A) n x, nth_error l n = Some x -> upd l n x = l.
 Proof.
